@@ -1,5 +1,6 @@
 import XvcPipeline.Props.C10
 import XvcPipeline.Unrepaired
+import XvcPipeline.Gen.WaitPath
 /-!
 # C13 — Concurrent step commands never exceed the configured process pool
 
@@ -35,6 +36,29 @@ theorem C13_reserve_guarded {c : Cfg} {σ : Sys} {s : Nat} {f : Ev} {k : Nat}
     (g : Guard c σ s .WaitingToRun f .StartProcess k) : 0 < σ.slots ∧ k + 1 = σ.slots := by
   cases g with
   | start _ _ hs => exact ⟨hs, by omega⟩
+
+/-! ### the slot is held from the reservation until the command has EXITED -/
+
+/-- a command that is running belongs to a step thread in state `Running`, i.e. to one of the threads `C13_slots_exact` counts
+    as slot holders: the slot is held in every `Running` state, from `StartProcess` until the exit is reported -/
+theorem C13_command_running_holds_slot {c : Cfg} {σ : Sys} (r : Reach c σ) (s : Nat) (h : σ.proc s = .running) :
+    σ.loc s = .Running ∧ σ.frm s = .WaitProcess := ((reach_inv r).proc s).1 h
+
+/-- the model gives the slot back exactly on the events that LEAVE `Running`, and those need the command to have exited
+    (or to be terminated by the timeout): no release while the command runs on -/
+theorem C13_exit_guard_releases {c : Cfg} {σ : Sys} {s : Nat} {f e : Ev} {k : Nat} {y : St}
+    (g : Guard c σ s .Running f e k) (ht : trans .Running e = some y) (hy : y ≠ .Running) :
+    k = σ.slots + 1 ∧ (σ.proc s = .exited true ∨ σ.proc s = .exited false ∨ e = .ProcessTimeout) := by
+  cases g with
+  | spawn => simp [Gen.trans] at ht; exact absurd ht.symm hy
+  | exitOk hp => exact ⟨rfl, Or.inl hp⟩
+  | exitFail hp => exact ⟨rfl, Or.inr (Or.inl hp)⟩
+  | timeout hp => exact ⟨rfl, Or.inr (Or.inr rfl)⟩
+
+/-- over the REGENERATED source order of `s_running_f_wait_process`: the slot is given back exactly once, after the loop that
+    polls the command until it has exited — not before it (e.g. after the first read of the output, which ends when the command
+    CLOSES its streams) and not inside it -/
+theorem C13_slot_released_only_after_exit : waitPath = [.pollUntilExit, .releaseSlot] := by decide
 
 /-- with a pool of 1 no two step commands ever run at the same time: the executions are totally ordered -/
 theorem C13_pool_one_serial {c : Cfg} {σ : Sys} (r : Reach c σ) (hp : c.pool = 1) (s t : Nat)
@@ -88,6 +112,9 @@ theorem C13_F6_unrepaired_counterexample :
 #print axioms C13_F6_unrepaired_counterexample
 #print axioms C13_pool_bound
 #print axioms C13_slots_exact
+#print axioms C13_command_running_holds_slot
+#print axioms C13_exit_guard_releases
+#print axioms C13_slot_released_only_after_exit
 #print axioms C13_slots_bounded
 #print axioms C13_reserve_guarded
 #print axioms C13_pool_one_serial
